@@ -39,6 +39,8 @@ class ScoreLaws (S : Type) [ScoreOps S] : Prop where
   one_mul : ∀ a : S, mul one a = a
   div_le_div_right : ∀ a b c : S, lt a b = false → lt zero c = true → lt (div a c) (div b c) = false
   sub_zero_neg : ∀ a : S, lt zero a = true → lt (sub zero a) zero = true
+  /-- `a ≥ b → c - a ≤ c - b` (C01: the fuzzy score normalisation is monotone on negative library scores) -/
+  sub_le_sub_left : ∀ a b c : S, lt a b = false → lt (sub c b) (sub c a) = false
 
 namespace ScoreLaws
 variable {S : Type} [ScoreOps S] [ScoreLaws S]
